@@ -196,31 +196,39 @@ def h_cmd_init(ctx):
                                                                          {'has_rules': lambda I_: I_.fresh('has_rules', BoolS)})
     body = fi.node.body
     stop_at = next(st for st in body if 'all_files' in ast.unparse(st) and isinstance(st, ast.Assign))
-    sp.stop = (fi.qualname, stop_at.lineno, lambda I_, frm: I_.ctx.cover('cmd_init.files_done'))
+    # the prefix of cmd_init up to the summary listing is verified: the postconditions are checked when execution reaches that point
     d = ctx.fresh('args.dir', StrS)
+
+    def post():
+        ctx.cover('cmd_init.files_done')
+        for i, ev in enumerate(log):
+            if ev[0] == 'open' and not (isinstance(ev[2], str) and ev[2].startswith('r')):
+                _, path, mode, pc = ev
+                ctx.check('C20.cmd_init.settings_only_appended_to[%d]' % i, mode == 'a', 'property')
+                ob = ctx.check('C20.cmd_init.appends_only_to_existing_settings[%d]' % i, cc.Exists(to_z3(path, StrS)), 'property')
+                ob.assumptions = list(pc)
+        for i, (a, k, pc) in enumerate(mig):
+            csv, cfgdir = to_z3(a[0], StrS), to_z3(a[1], StrS)
+            ob = ctx.check('C20.cmd_init.migrates_only_an_existing_csv_without_rules_file[%d]' % i,
+                           z3.And(cc.Exists(csv), z3.Not(cc.Exists(cc.join(cfgdir, sv('merchants.rules'))))), 'property')
+            ob.assumptions = list(pc)
+            ctx.check('C20.cmd_init.migration_keeps_backup[%d]' % i, k.get('backup', a[2] if len(a) > 2 else True) is True, 'property')
+        if any(ev[0] == 'open' and ev[2] == 'a' for ev in log):
+            ctx.cover('cmd_init.settings_append_reached')
+        if mig:
+            ctx.cover('cmd_init.migration_reached')
+    sp.stop = (fi.qualname, stop_at.lineno, lambda I_, frm: post())
     try:
         I.call_function(fi, [Rec('Namespace', {'dir': d})])
     except PyRaise as e:
         ctx.check('C20.cmd_init.raises_nothing', False, 'property', meta={'escaping': e.cls})
-    for i, ev in enumerate(log):
-        if ev[0] == 'open' and not (isinstance(ev[2], str) and ev[2].startswith('r')):
-            _, path, mode, pc = ev
-            ctx.check('C20.cmd_init.settings_only_appended_to[%d]' % i, mode == 'a', 'property')
-            ob = ctx.check('C20.cmd_init.appends_only_to_existing_settings[%d]' % i, cc.Exists(to_z3(path, StrS)), 'property')
-            ob.assumptions = list(pc)
-    for i, (a, k, pc) in enumerate(mig):
-        csv, cfgdir = to_z3(a[0], StrS), to_z3(a[1], StrS)
-        ob = ctx.check('C20.cmd_init.migrates_only_an_existing_csv_without_rules_file[%d]' % i,
-                       z3.And(cc.Exists(csv), z3.Not(cc.Exists(cc.join(cfgdir, sv('merchants.rules'))))), 'property')
-        ob.assumptions = list(pc)
-        ctx.check('C20.cmd_init.migration_keeps_backup[%d]' % i, k.get('backup', a[2] if len(a) > 2 else True) is True, 'property')
 
 
 def harnesses(tier):
     return [Harness('cmd_run.migration_guard', h_migration_guard, ['tally.commands.run.cmd_run', 'tally.cli._check_merchant_migration']),
             Harness('cmd_run.report_location', h_report_location, ['tally.commands.run.cmd_run']),
             Harness('init_config', h_init_config, ['tally.cli.init_config']),
-            Harness('cmd_init', h_cmd_init, ['tally.commands.init.cmd_init'])]
+            Harness('cmd_init', h_cmd_init, ['tally.commands.init.cmd_init'], prune=True)]
 
 
 ALLOWED = {
